@@ -20,10 +20,10 @@ from ..pysym import Engine, ZInt
 PROP = "C18"
 PAIRS = [
     ("consts+enum",
-     "proto a\nconst N = {n:a1}\nconst F = true\nconst S = \"s\"\nenum E : uint5 {\n    X = {n:a2}\n    Y = {x:a3}\n}\nmessage M {\n    byte[N] raw = 1\n    E e = {n:a4}\n    bool b = {n:a5}\n}\n",
+     "// Schema A: header comment, first line.\n// Second line of the header comment.\nproto a\nconst N = {n:a1}\nconst F = true\nconst S = \"s\"\nenum E : uint5 {\n    X = {n:a2}\n    Y = {x:a3}\n}\nmessage M {\n    byte[N] raw = 1\n    E e = {n:a4}\n    bool b = {n:a5}\n}\n",
      "proto a\nconst N = {n:b1}\nconst F = false\nconst S = \"t\"\nenum E : uint5 {\n    X = {n:b2}\n    Y = {x:b3}\n}\nmessage M {\n    byte[N] raw = 1\n    E e = {n:b4}\n    bool b = {n:b5}\n}\n"),
     ("nested+arrays",
-     "proto a\ntype Row = int9[3]\nmessage O {\n    message I {\n        Row r = {n:a2}\n        uint3 u = {n:a3}\n    }\n    I[{n:a4}]' is_ = 1\n    I one = 2\n}\n",
+     "// Leading comment of A\nproto a\n// doc of Row\ntype Row = int9[3]\nmessage O {\n    message I {\n        Row r = {n:a2}\n        uint3 u = {n:a3}\n    }\n    I[{n:a4}]' is_ = 1\n    I one = 2\n}\n",
      "proto a\ntype Row = int9[{n:b1}]'\nmessage O' {\n    message I {\n        Row r = {n:b2}\n        uint3 u = {n:b3}\n    }\n    I[2] is_ = 1\n    I one = 2\n}\n"),
     ("bool-vs-int-constants",
      "proto a\nconst T = true\nconst ONE = {n:a1}\nconst Z = {n:a2}\nconst NO = false\n",
@@ -261,6 +261,77 @@ def _confirm_order(ta: str, order: List[str], lang: str) -> str:
     return ""
 
 
+# ---- supporting concrete observation of the clauses that have no value quantifier (process, hash seed, directories, -q)
+OBS_SCHEMAS = {
+    "vehicle": {
+        "vehicle.bitproto": '// A vehicle.\nproto vehicle\nimport "geometry.bitproto"\nimport pw "power.bitproto"\nimport "clock.bitproto"\n\nconst WHEELS = 2 * 2\n\nenum Gear : uint3 {\n    GEAR_NEUTRAL = 0\n    GEAR_ONE = 1\n    GEAR_REVERSE = 5\n}\n\n'
+                            "message Vehicle' {\n    message Wheel {\n        enum Side : uint1 {\n            SIDE_LEFT = 0\n            SIDE_RIGHT = 1\n        }\n        Side side = 1\n        uint11 rpm = 2\n    }\n"
+                            "    geometry.Point position = 1\n    pw.Battery battery = 2\n    clock.Stamp seen = 3\n    Wheel[WHEELS] wheels = 4\n    Gear gear = 5\n    geometry.Point[2]' track = 6\n}\n",
+        "geometry.bitproto": "proto geometry\nmessage Point {\n    int20 x = 1\n    int20 y = 2\n}\n",
+        "power.bitproto": "proto power\nenum Cell : uint2 {\n    CELL_UNKNOWN = 0\n    CELL_LION = 1\n}\nmessage Battery {\n    Cell cell = 1\n    uint7 percent = 2\n}\n",
+        "clock.bitproto": "proto clock\ntype Stamp = int48\n",
+    },
+}
+
+
+def work_process(job: Tuple[str, str]) -> Dict[str, Any]:
+    """The same schema files with the same options through the real command line in fresh processes that differ in
+    PYTHONHASHSEED, working directory, relative / absolute schema path, output directory and -q: every output file must
+    be byte-identical.  No symbolic variable -- these clauses quantify over runs, so runs are what is observed."""
+    import hashlib
+    import os
+    import subprocess
+
+    from ..common import REPO, VENV_PY
+
+    name, lang = job
+    res = {"case": f"process:{name}:{lang}", "messages": 1, "leaves": 0, "paths": 0, "queries": 0, "unsat": 0, "sat": 0, "unknown": 0, "solver_s": 0.0, "merges": 0, "witness": 0, "witness_agree": 0,
+           "violations": [], "inconclusive": [], "samples": [], "obligations": 0}
+    files = OBS_SCHEMAS[name]
+    main = name + ".bitproto"
+    with Scratch() as sc:
+        src = sc.path("src")
+        os.makedirs(src)
+        for fn, text in files.items():
+            open(os.path.join(src, fn), "w").write(text)
+
+        def run_one(tag: str, seed_: str, cwd: str, path: str, quiet: bool) -> Any:
+            out = sc.path("out_" + tag)
+            os.makedirs(out, exist_ok=True)
+            digests = {}
+            for fn in files:  # every file of the import graph, as a build would
+                p = os.path.join(os.path.dirname(path), fn) if os.path.dirname(path) else fn
+                cmd = [VENV_PY, "-m", "bitproto._main", lang, p, out] + (["-q"] if quiet else [])
+                r = subprocess.run(cmd, capture_output=True, text=True, timeout=120, cwd=cwd, env={"PYTHONPATH": os.path.join(REPO, "compiler"), "PYTHONHASHSEED": seed_, "PATH": os.environ.get("PATH", "")})
+                if r.returncode != 0:
+                    return f"exit {r.returncode}: {r.stderr[-200:]}"
+            for f in sorted(os.listdir(out)):
+                digests[f] = hashlib.sha256(open(os.path.join(out, f), "rb").read()).hexdigest()
+            return digests
+
+        ref = run_one("ref", "0", src, main, True)
+        if not isinstance(ref, dict):
+            res["inconclusive"].append(f"{res['case']}: reference run failed: {ref}")
+            return res
+        variants = [(f"seed{s}", s, src, main, True) for s in ("1", "2", "3", "7", "12345", "4294967295")]
+        variants += [("abs-path", "0", src, os.path.join(src, main), True), ("cwd-root", "0", "/", os.path.join(src, main), True), ("cwd-parent-rel", "0", sc.dir, os.path.join("src", main), True),
+                     ("lint-on", "0", src, main, False), ("lint-on-seed5", "5", src, main, False)]
+        for tag, s, cwd, path, quiet in variants:
+            res["obligations"] += 1
+            got = run_one(tag, s, cwd, path, quiet)
+            if not isinstance(got, dict):
+                res["inconclusive"].append(f"{res['case']}: run {tag} failed: {got}")
+                continue
+            diff = sorted(f for f in set(ref) | set(got) if ref.get(f) != got.get(f))
+            if diff:
+                res["violations"].append({"what": f"{res['case']}: output differs from the reference run (PYTHONHASHSEED=0, cwd = schema directory, relative path, -q) when run as `{tag}` (seed {s}, cwd {'schema dir' if cwd == src else cwd}, {'-q' if quiet else 'lint on'}): {diff[:3]}",
+                                          "payload": {"kind": "process", "files": files, "main": main, "lang": lang, "variant": tag}, "confirmed": True, "info": {"kind": "process", "key": "process:" + tag.rstrip("0123456789")}})
+                break
+        else:
+            res["samples"].append({"case": res["case"], "runs_identical": len(variants) + 1, "files": sorted(ref)})
+    return res
+
+
 def main() -> int:
     from .agg import run_parts
 
@@ -268,16 +339,22 @@ def main() -> int:
     meta = {
         "functions_encoded": ["compiler/bitproto/utils.py", "compiler/bitproto/_ast.py", "compiler/bitproto/parser.py", "compiler/bitproto/renderer/block.py", "compiler/bitproto/renderer/formatter.py", "compiler/bitproto/linter.py"],
         "bounds": f"{len(PAIRS)} schema pairs (A, B re-using A's names with other values / marks / constant kinds), both orders; modes: no lint, lint before every rendering, render - lint the same tree - render again (= without / with -q); the four renderers in the order c.h, c.c, go, py or reversed; holes 0..199; histories of length 3 (A, B, A) in one process; each job in a worker process of its own (nothing compiled before); for the first {FRESH_PER_JOB} paths of a job the text of the first rendering, literals instantiated by the path's witness, is compared with the file a fresh command-line process writes for that language alone",
-        "outside_claim": "everything else in the property -- PYTHONHASHSEED, working / output directories, relative vs absolute paths: none of these is an input that can be made symbolic (the hash seed is fixed before the interpreter starts; id()-based hashing and dict order are properties of the runtime, not of values); deciding them means re-running the compiler, i.e. enumerating concrete runs",
+        "process_level_observation": "supporting concrete observation, not a solver verdict: one schema (three imports, nesting, enum, constants, extensible marks) x {c, go, py} through the real command line in 12 fresh processes differing in PYTHONHASHSEED (7 values), working directory (3), relative / absolute path, -q; sha256 of every output file",
+        "outside_claim": "decided by the solver for nothing but the in-process history; PYTHONHASHSEED, working / output directories, relative vs absolute paths are only observed on the runs listed: none of these is an input that can be made symbolic (the hash seed is fixed before the interpreter starts; id()-based hashing and dict order are properties of the runtime, not of values); deciding them means re-running the compiler, i.e. enumerating concrete runs",
         "explanation": "kernel only: caches and module-level state keyed on values or classes (functools.cache on formatter / AST methods, class-level attributes, cached lists mutated in place, e.g. by a linter rule) are exercised by compiling A, B, A in one symbolic run, for several target languages in a row; the first and third rendering of A, and the rendering before and after lint, must be the same text with the same terms for all values; the first rendering must be what a fresh process writes",
     }
-    return run_parts(PROP, "other", [("in-process-history", work, jobs)], meta, ["z3 decides the integer queries", "sentinel normalisation compares literals by their simplified terms"], fresh_workers=True)
+    obs = [(n, l) for n in OBS_SCHEMAS for l in ("c", "go", "py")]
+    return run_parts(PROP, "other", [("in-process-history", work, jobs), ("process-level-observation", work_process, obs)], meta, ["z3 decides the integer queries", "sentinel normalisation compares literals by their simplified terms"], fresh_workers=True)
 
 
 def replay(path: str) -> int:
     import json
 
     p = json.load(open(path))
+    if p.get("kind") == "process":
+        r = work_process((p["main"].replace(".bitproto", ""), p["lang"]))
+        print(r["violations"][0]["what"] if r["violations"] else "passes: holds on this input now")
+        return 1 if r["violations"] else 0
     if p.get("kind") == "order":
         r = _confirm_order(p["a"], p["order"], p["lang"])
     else:
